@@ -5,6 +5,8 @@ returned equals `n/d` for a pair with `n ≡ s·d (mod h)` (partial correctness 
 -/
 import Mathlib.Tactic.Linarith
 import Mathlib.Tactic.Ring
+import Mathlib.Tactic.Positivity
+import Mathlib.Algebra.Order.Ring.Abs
 import DSymVerif.Proofs.Gcdx
 
 namespace DSymVerif.LA
@@ -136,5 +138,131 @@ theorem rationalReconstruction_total (s h : Int) (hs : 0 ≤ s) (hsh : s ≤ h) 
     ∃ q, rationalReconstruction s h = .ok q := by
   unfold rationalReconstruction
   exact ratRecLoop_total h (by omega) _ h s 0 1 1 hs hsh (le_refl _) (le_refl _) (by omega)
+
+/-- congruence and size of what the loop returns: `n ≡ s·d (mod h)`, `n² ≤ h`, `1 ≤ d`,
+    `d² ≤ h` (classical invariants `u·v1 + u1·v = h`, and `u² > h` after the first step) -/
+theorem ratRecLoop_full (s h : Int) (hh : 1 ≤ h) :
+    ∀ (fuel : Nat) (u u1 v v1 sign : Int) (q : Q), (sign = 1 ∨ sign = -1) →
+      h ∣ u1 - sign * s * v1 → h ∣ u + sign * s * v →
+      0 ≤ u1 → u1 ≤ u → 0 ≤ v → 1 ≤ v1 → u * v1 + u1 * v = h → (h < u * u ∨ v1 = 1) →
+      ratRecLoop h fuel u u1 v v1 sign = .ok q →
+      ∃ n d, h ∣ n - s * d ∧ Q.new n d = .ok q ∧ n * n ≤ h ∧ 1 ≤ d ∧ d * d ≤ h := by
+  intro fuel
+  induction fuel with
+  | zero => intro u u1 v v1 sign q _ _ _ _ _ _ _ _ _ hq; simp [ratRecLoop] at hq
+  | succ f ih =>
+    intro u u1 v v1 sign q hsign h1 h0 hu1 hle hv hv1 hsum hbig hq
+    unfold ratRecLoop at hq
+    have hu : 0 ≤ u := by omega
+    split at hq
+    · rename_i hgt
+      split at hq
+      · cases hq
+      · rename_i hne
+        have hpos : 0 < u1 := by omega
+        have hqd : u.tdiv u1 = u / u1 := Int.tdiv_eq_ediv_of_nonneg hu
+        have hq1 : 1 ≤ u / u1 := Int.le_ediv_of_mul_le hpos (by omega)
+        have hm : u.tmod u1 = u % u1 := Int.tmod_eq_emod_of_nonneg hu
+        have hm0 : 0 ≤ u % u1 := Int.emod_nonneg _ hne
+        have hm1 : u % u1 < u1 := Int.emod_lt_of_pos _ hpos
+        have hdm : u % u1 = u - u / u1 * u1 := by
+          have := Int.emod_add_mul_ediv u u1; linarith [mul_comm u1 (u / u1)]
+        rw [hqd, hm] at hq
+        apply ih _ _ _ _ _ q _ _ _ _ _ _ _ _ _ hq
+        · rcases hsign with e | e <;> simp [e]
+        · have e : u % u1 - -sign * s * (v + u / u1 * v1) =
+              (u + sign * s * v) - u / u1 * (u1 - sign * s * v1) := by
+            rw [hdm]; ring
+          rw [e]
+          exact Int.dvd_sub h0 (Dvd.dvd.mul_left h1 _)
+        · have e : u1 + -sign * s * v1 = u1 - sign * s * v1 := by ring
+          rw [e]; exact h1
+        · exact hm0
+        · omega
+        · omega
+        · have : 1 * 1 ≤ u / u1 * v1 := mul_le_mul hq1 hv1 (by norm_num) (by omega)
+          omega
+        · rw [hdm]; linarith [hsum, show u1 * (v + u / u1 * v1) + (u - u / u1 * u1) * v1 = u * v1 + u1 * v by ring]
+        · left; exact hgt
+    · rename_i hngt
+      refine ⟨sign * u1, v1, ?_, hq, ?_, hv1, ?_⟩
+      · have e : sign * u1 - s * v1 = sign * (u1 - sign * s * v1) := by
+          rcases hsign with e | e <;> subst e <;> ring
+        rw [e]
+        exact Dvd.dvd.mul_left h1 _
+      · have : sign * u1 * (sign * u1) = u1 * u1 := by
+          rcases hsign with e | e <;> subst e <;> ring
+        rw [this]; omega
+      · rcases hbig with hb | hb
+        · have h2 : u * v1 ≤ h := by nlinarith [mul_nonneg hu1 hv]
+          by_contra hcon
+          have hcon' : h < v1 * v1 := by omega
+          have h3 : h * h < (u * u) * (v1 * v1) := by
+            have : 0 < h := by omega
+            nlinarith
+          have h4 : (u * v1) * (u * v1) ≤ h * h := by
+            have : 0 ≤ u * v1 := mul_nonneg hu (by omega)
+            nlinarith
+          nlinarith
+        · rw [hb]; omega
+
+/-- `rational_reconstruction(s, h)` for `0 ≤ s ≤ h`, `1 ≤ h`: the returned fraction is `n/d`
+    with `n ≡ s·d (mod h)`, `n² ≤ h`, `1 ≤ d`, `d² ≤ h` -/
+theorem rationalReconstruction_full (s h : Int) (hs : 0 ≤ s) (hsh : s ≤ h) (hh : 1 ≤ h) (q : Q)
+    (hq : rationalReconstruction s h = .ok q) :
+    ∃ n d : Int, h ∣ n - s * d ∧ q.num * d = n * (q.den : Int) ∧ n * n ≤ h ∧ 1 ≤ d ∧ d * d ≤ h := by
+  unfold rationalReconstruction at hq
+  obtain ⟨n, d, hdvd, hnew, hn, hd1, hd⟩ := ratRecLoop_full s h hh _ h s 0 1 1 q (Or.inl rfl)
+    (by simp) (by simp) hs hsh (le_refl _) (le_refl _) (by ring) (Or.inr rfl) hq
+  exact ⟨n, d, hdvd, (Q.new_value hnew).2, hn, hd1, hd⟩
+
+/-- uniqueness of the small fraction: two pairs congruent to the same `s` modulo `h`, one within
+    the reconstruction bounds, the other with `(|N| + D)² < h`, are the same fraction -/
+theorem ratRec_unique {s h n d N D : Int} (hh : 1 ≤ h) (h1 : h ∣ n - s * d) (h2 : h ∣ N - s * D)
+    (hn : n * n ≤ h) (hd1 : 1 ≤ d) (hd : d * d ≤ h) (hD : 1 ≤ D)
+    (hb : (|N| + D) * (|N| + D) < h) : n * D = N * d := by
+  have hdvd : h ∣ n * D - N * d := by
+    have e : n * D - N * d = (n - s * d) * D - (N - s * D) * d := by ring
+    rw [e]
+    exact Int.dvd_sub (Dvd.dvd.mul_right h1 _) (Dvd.dvd.mul_right h2 _)
+  have habs : |n * D - N * d| < h := by
+    have hN : 0 ≤ |N| := abs_nonneg N
+    have hnn : 0 ≤ |n| := abs_nonneg n
+    have hn2 : |n| * |n| ≤ h := by rw [abs_mul_abs_self]; exact hn
+    have hnd : |n| * d ≤ h := by nlinarith [sq_nonneg (|n| - d)]
+    have h3 : |n * D - N * d| ≤ |n| * D + |N| * d := by
+      calc |n * D - N * d| ≤ |n * D| + |N * d| := abs_sub _ _
+        _ = |n| * D + |N| * d := by
+          rw [abs_mul, abs_mul, abs_of_nonneg (by omega : (0 : Int) ≤ D),
+            abs_of_nonneg (by omega : (0 : Int) ≤ d)]
+    have h4 : (|n| * D + |N| * d) * (|n| * D + |N| * d) ≤ h * ((|N| + D) * (|N| + D)) := by
+      have e : (|n| * D + |N| * d) * (|n| * D + |N| * d) =
+          (|n| * |n|) * (D * D) + 2 * (|n| * d) * (D * |N|) + (d * d) * (|N| * |N|) := by ring
+      have e2 : h * ((|N| + D) * (|N| + D)) = h * (D * D) + 2 * h * (D * |N|) + h * (|N| * |N|) := by
+        ring
+      rw [e, e2]
+      have a1 : (|n| * |n|) * (D * D) ≤ h * (D * D) := mul_le_mul_of_nonneg_right hn2 (by positivity)
+      have a2 : 2 * (|n| * d) * (D * |N|) ≤ 2 * h * (D * |N|) := by
+        have : 0 ≤ D * |N| := mul_nonneg (by omega) hN
+        nlinarith
+      have a3 : (d * d) * (|N| * |N|) ≤ h * (|N| * |N|) := mul_le_mul_of_nonneg_right hd (by positivity)
+      linarith
+    have h5 : 0 ≤ |n| * D + |N| * d := by
+      have := mul_nonneg hnn (by omega : (0 : Int) ≤ D)
+      have := mul_nonneg hN (by omega : (0 : Int) ≤ d)
+      linarith
+    by_contra hcon
+    have hcon' : h ≤ |n| * D + |N| * d := by
+      have : h ≤ |n * D - N * d| := by omega
+      omega
+    have : h * h ≤ (|n| * D + |N| * d) * (|n| * D + |N| * d) := by nlinarith
+    have : h * h < h * h := by
+      have hpos : 0 < h := by omega
+      calc h * h ≤ (|n| * D + |N| * d) * (|n| * D + |N| * d) := this
+        _ ≤ h * ((|N| + D) * (|N| + D)) := h4
+        _ < h * h := by nlinarith
+    omega
+  have := Int.eq_zero_of_abs_lt_dvd hdvd habs
+  omega
 
 end DSymVerif.LA
